@@ -365,6 +365,22 @@ def run_dc(case, o: Oracle) -> None:
         "cc_socu": hex(socu) if txt else socu, "cc_vu": hex(vu) if txt else vu, "cc_beacon": str(cb) if txt else cb,
         "rot_meta": [os.path.basename(p) for p in rot_files], "rot_id": rot_id, "dck": os.path.basename(dck_file),
     }
+    spaths = [wd]
+    if int(core.case_digest(case)[8:10], 16) % 2:
+        # a project folder of its own in which the key files have everyday names: the same names hold other keys in the next case
+        import shutil
+
+        pdir = os.path.join(wd, "project-%d" % os.getpid())
+        shutil.rmtree(pdir, ignore_errors=True)
+        os.makedirs(pdir)
+        names = []
+        for i, (src, form) in enumerate(zip(rot_files, rot_form)):
+            names.append("rot%d.%s" % (i, form.split(".")[1]))
+            shutil.copyfile(src, os.path.join(pdir, names[-1]))
+        shutil.copyfile(dck_file, os.path.join(pdir, "dck_key." + case["dck_form"].split(".")[1]))
+        cfg["rot_meta"], cfg["dck"] = names, "dck_key." + case["dck_form"].split(".")[1]
+        spaths = [pdir, wd]
+        o.label("everyday_file_names")
     if by_socc:
         cfg["socc"] = hex(info["socc"]) if txt else info["socc"]
     else:
@@ -389,10 +405,10 @@ def run_dc(case, o: Oracle) -> None:
     dc = data = None
     with o.spsdk("create", "dc"):
         family = fam_given if not by_socc else DebugCredentialCertificate.get_family_ambassador(info["socc"])
-        klass = DebugCredentialCertificate._get_class_from_cfg(config=cfg, family=family, search_paths=[wd], revision=call_rev)
-        check_config(cfg, klass.get_validation_schemas(family, call_rev), search_paths=[wd])
+        klass = DebugCredentialCertificate._get_class_from_cfg(config=cfg, family=family, search_paths=spaths, revision=call_rev)
+        check_config(cfg, klass.get_validation_schemas(family, call_rev), search_paths=spaths)
         version = ProtocolVersion("%d.%d" % (major, minor)) if case["explicit_version"] else None
-        dc = klass.create_from_yaml_config(config=cfg, version=version, search_paths=[wd])
+        dc = klass.create_from_yaml_config(config=cfg, version=version, search_paths=spaths)
         dc.sign()
         data = dc.export()
         o.eq("create", "class", type(dc).__name__, want_class)
